@@ -14,6 +14,16 @@ from .registry import ghost_var, CONSTS, GHOSTS
 from . import files
 
 HOME = z3.String("home_dir")
+UTF8_TEXT = z3.Function("utf8_text", BYTES, z3.StringSort())        # the text a file's bytes decode to (abstract)
+JSON_PARSE = z3.Function("json_parse", z3.StringSort(), BYTES)      # the value json.loads builds from a text (an opaque token)
+
+
+def json_loads(E, a, kw, fr, node):
+    v = a[0]
+    if isinstance(v, SV) and v.ty == TStr:
+        E.may_raise("JSONDecodeError", E.fresh("not_json", TBool).t, getattr(node, "lineno", 0), "json.loads of a text that is not JSON")
+        return SV(JSON_PARSE(v.t), TBytes)
+    raise Unsupported("json.loads of %r" % (v,))
 
 
 class PathV:
@@ -140,6 +150,10 @@ def path_method(E, p, name, args, kwargs, fr, node):
     if name == "read_bytes":
         E.may_raise("FileNotFoundError", z3.Not(files.fs_has(E, t)), line, "read_bytes of a missing file")
         return SV(files.fs_data(E, t), TBytes)
+    if name == "read_text":
+        E.may_raise("FileNotFoundError", z3.Not(files.fs_has(E, t)), line, "read_text of a missing file")
+        E.may_raise("UnicodeDecodeError", E.fresh("undecodable", TBool).t, line, "read_text of bytes that are not text")
+        return SV(UTF8_TEXT(files.fs_data(E, t)), TStr)
     if name == "unlink":
         missing_ok = kwargs.get("missing_ok", args[0] if args else False)
         if not isinstance(missing_ok, bool):
